@@ -28,6 +28,7 @@ import (
 	"sync"
 	"sync/atomic"
 	"testing"
+	"unsafe"
 	"time"
 )
 
@@ -1034,6 +1035,17 @@ func (r *vpRun) addRegs(w *vpWorld, regs []*vpReg) {
 		reg.descLo, reg.descHi = lo, len(w.coll.allDescriptors)
 		reg.descPtrs = append([]*Descriptor(nil), w.coll.allDescriptors[lo:]...)
 		reg.added = err == nil
+		for _, d := range reg.descPtrs {
+			// the lifetime a registration asked for is the lifetime of every descriptor it produced (instance values:
+			// the lifetime they were registered with)
+			if d.Lifetime != reg.life {
+				w.fail("C17,C01,C02,C03", "registration #%d asked for lifetime %v, its descriptor for %v carries %v", reg.idx+1, reg.life, d.Type, d.Lifetime)
+			}
+			if reg.form != "inst" && d.Constructor.IsValid() && d.Constructor.Kind() == reflect.Func && reflect.ValueOf(reg.fn).Kind() == reflect.Func &&
+				d.Constructor.Type() != reflect.TypeOf(reg.fn) {
+				w.fail("C17,C04", "registration #%d: the descriptor for %v does not carry the registered constructor (type %v, registered %v)", reg.idx+1, d.Type, d.Constructor.Type(), reflect.TypeOf(reg.fn))
+			}
+		}
 		if reg.doomed && err == nil {
 			w.fail("C17", "a result object whose second field claims an identity that is already registered was accepted")
 		}
@@ -1675,12 +1687,133 @@ func (r *vpRun) getGroup(w *vpWorld, s int, t reflect.Type, group string) {
 	r.emit(op, "ok "+w.showAny(v)+w.flushEvents())
 }
 
+// ---- the container's bookkeeping, read by field name -----------------------------------------------------------
+// The monitors below look into unexported tables (provider.scopes, scope.children, scope.instances, ...). They are
+// read through reflection by NAME, so that a change of the container that renames, retypes or removes one of them
+// still leaves a harness that builds and runs: a monitor whose field is gone says "unknown" (and the `p state` line
+// prints "?", which the model does not), the behavioural monitors keep deciding.
+func vpInternal(obj any, name string) (reflect.Value, bool) {
+	v := reflect.ValueOf(obj)
+	for v.IsValid() && (v.Kind() == reflect.Pointer || v.Kind() == reflect.Interface) {
+		if v.IsNil() {
+			return reflect.Value{}, false
+		}
+		v = v.Elem()
+	}
+	if !v.IsValid() || v.Kind() != reflect.Struct {
+		return reflect.Value{}, false
+	}
+	f := v.FieldByName(name)
+	if !f.IsValid() || !f.CanAddr() {
+		return reflect.Value{}, false
+	}
+	return reflect.NewAt(f.Type(), unsafe.Pointer(f.UnsafeAddr())).Elem(), true
+}
+
+func vpWithLock(obj any, mu string, f func()) {
+	if m, ok := vpInternal(obj, mu); ok && m.CanAddr() {
+		if l, ok := m.Addr().Interface().(sync.Locker); ok {
+			l.Lock()
+			defer l.Unlock()
+		}
+	}
+	f()
+}
+
+// vpTableLen: length of a map/slice-typed table ("nil" when it is nil, "?" when there is no such field)
+func vpTableLen(obj any, mu, field string) (n int, show string) {
+	show = "?"
+	vpWithLock(obj, mu, func() {
+		t, ok := vpInternal(obj, field)
+		if !ok || (t.Kind() != reflect.Map && t.Kind() != reflect.Slice) {
+			return
+		}
+		if t.IsNil() {
+			show = "nil"
+			return
+		}
+		n = t.Len()
+		show = strconv.Itoa(n)
+	})
+	return
+}
+
+// vpTableHas: does the table hold key (map key / slice element)? known=false when there is no such table
+func vpTableHas(obj any, mu, field string, key any) (has, known bool) {
+	vpWithLock(obj, mu, func() {
+		t, ok := vpInternal(obj, field)
+		if !ok {
+			return
+		}
+		kv := reflect.ValueOf(key)
+		switch t.Kind() {
+		case reflect.Map:
+			known = true
+			if !t.IsNil() && kv.Type().AssignableTo(t.Type().Key()) {
+				has = t.MapIndex(kv).IsValid()
+			}
+		case reflect.Slice:
+			known = true
+			for i := 0; i < t.Len(); i++ {
+				if e := t.Index(i); e.CanInterface() && e.Interface() == key {
+					has = true
+				}
+			}
+		}
+	})
+	return
+}
+
+func vpFlag(obj any, name string) bool {
+	f, ok := vpInternal(obj, name)
+	if !ok {
+		return false
+	}
+	switch f.Kind() {
+	case reflect.Int32:
+		return atomic.LoadInt32(f.Addr().Interface().(*int32)) != 0
+	case reflect.Bool:
+		return f.Bool()
+	case reflect.Struct:
+		if b, ok := f.Addr().Interface().(*atomic.Bool); ok {
+			return b.Load()
+		}
+		if b, ok := f.Addr().Interface().(*atomic.Int32); ok {
+			return b.Load() != 0
+		}
+	}
+	return false
+}
+
+func vpPtrField(obj any, name string) any {
+	f, ok := vpInternal(obj, name)
+	if !ok || (f.Kind() != reflect.Pointer && f.Kind() != reflect.Interface) || f.IsNil() {
+		return nil
+	}
+	return f.Interface()
+}
+
 func (w *vpWorld) waitClosed(sc Scope, what string) {
-	if s, ok := sc.(*scope); ok {
+	deadline := time.After(10 * time.Second)
+	if ch, ok := vpInternal(sc, "closed"); ok && ch.Kind() == reflect.Chan {
+		chosen, _, _ := reflect.Select([]reflect.SelectCase{
+			{Dir: reflect.SelectRecv, Chan: ch},
+			{Dir: reflect.SelectRecv, Chan: reflect.ValueOf(deadline)},
+		})
+		if chosen == 1 {
+			w.fail("C13,C14", "%s: scope not closed within 10s", what)
+		}
+		return
+	}
+	for { // no completion channel to wait on: poll the behaviour
+		if _, e := sc.Get(scopeType); errors.Is(e, ErrScopeDisposed) || errors.Is(e, ErrProviderDisposed) {
+			return
+		}
 		select {
-		case <-s.closed:
-		case <-time.After(10 * time.Second):
-			w.fail("C13,C14", "%s: scope %s not closed within 10s", what, s.id)
+		case <-deadline:
+			w.fail("C13,C14", "%s: scope not closed within 10s", what)
+			return
+		case <-time.After(2 * time.Millisecond):
 		}
 	}
 }
@@ -1731,26 +1864,16 @@ func (r *vpRun) closeScope(w *vpWorld, s int, parentOf map[int]int) {
 	w.monitorCloseOrder("Scope.Close")
 	// C14: once Close has returned - with or without a disposal error - neither the provider nor the parent
 	// keeps the scope
-	if si, ok := sc.(*scope); ok {
-		p := si.rootProvider
-		p.scopesMu.Lock()
-		_, tracked := p.scopes[si]
-		p.scopesMu.Unlock()
-		if tracked {
+	{
+		if has, known := vpTableHas(w.prov, "scopesMu", "scopes", sc); known && has {
 			w.fail("C14", "the provider still tracks scope s%d after its Close returned (%v)", s, err)
 		}
-		if par := si.parentScope; par != nil {
-			par.childrenMu.Lock()
-			_, held := par.children[si]
-			par.childrenMu.Unlock()
-			if held {
+		if par := vpPtrField(sc, "parentScope"); par != nil {
+			if has, known := vpTableHas(par, "childrenMu", "children", sc); known && has {
 				w.fail("C14", "the parent still references scope s%d after its Close returned (%v)", s, err)
 			}
 		}
-		si.instancesMu.RLock()
-		inst := si.instances
-		si.instancesMu.RUnlock()
-		if inst != nil {
+		if _, show := vpTableLen(sc, "instancesMu", "instances"); show != "nil" && show != "?" {
 			w.fail("C14", "closed scope s%d still holds its instance cache (%v)", s, err)
 		}
 	}
@@ -1868,13 +1991,8 @@ func (r *vpRun) closeProvider(w *vpWorld, parentOf map[int]int) {
 		}
 	}
 	// C14: nothing tracked any more
-	if p, ok := w.prov.(*provider); ok {
-		p.scopesMu.Lock()
-		n := len(p.scopes)
-		p.scopesMu.Unlock()
-		if n != 0 {
-			w.fail("C14", "closed provider still tracks %d scopes", n)
-		}
+	if n, _ := vpTableLen(w.prov, "scopesMu", "scopes"); n != 0 {
+		w.fail("C14", "closed provider still tracks %d scopes", n)
 	}
 	r.emit("p close P", obs+w.flushEvents())
 }
@@ -1917,24 +2035,12 @@ func (w *vpWorld) monitorCloseOrderPerOwner(what string) {
 // state lines: table sizes the model predicts (C14)
 func (r *vpRun) state(w *vpWorld, s int) {
 	if s < 0 {
-		p := w.prov.(*provider)
-		p.scopesMu.Lock()
-		n := "nil"
-		if p.scopes != nil {
-			n = strconv.Itoa(len(p.scopes))
-		}
-		p.scopesMu.Unlock()
-		r.emit("p state P", fmt.Sprintf("scopes=%s disposed=%v", n, atomic.LoadInt32(&p.disposed) != 0))
+		_, n := vpTableLen(w.prov, "scopesMu", "scopes")
+		r.emit("p state P", fmt.Sprintf("scopes=%s disposed=%v", n, vpFlag(w.prov, "disposed")))
 		return
 	}
-	sc := w.scopes[s].(*scope)
-	sc.childrenMu.Lock()
-	n := "nil"
-	if sc.children != nil {
-		n = strconv.Itoa(len(sc.children))
-	}
-	sc.childrenMu.Unlock()
-	r.emit(fmt.Sprintf("p state s%d", s), fmt.Sprintf("children=%s disposed=%v", n, atomic.LoadInt32(&sc.disposed) != 0))
+	_, n := vpTableLen(w.scopes[s], "childrenMu", "children")
+	r.emit(fmt.Sprintf("p state s%d", s), fmt.Sprintf("children=%s disposed=%v", n, vpFlag(w.scopes[s], "disposed")))
 }
 
 // ---------------------------------------------------------------- generator
@@ -3073,11 +3179,10 @@ func (r *vpRun) cancelledCreation(rng *rand.Rand) {
 		return
 	}
 	r.stats["cancelled_creation"]++
-	pp := prov.(*provider)
 	var owner interface {
 		CreateScope(context.Context) (Scope, error)
 	} = prov
-	var parent *scope
+	var parent Scope
 	if nested {
 		p, e := prov.CreateScope(nil)
 		if e != nil {
@@ -3085,17 +3190,13 @@ func (r *vpRun) cancelledCreation(rng *rand.Rand) {
 			r.emit("p verdict", "ok")
 			return
 		}
-		owner, parent = p, p.(*scope)
+		owner, parent = p, p
 	}
 	tracked := func() (int, int) {
-		pp.scopesMu.Lock()
-		n := len(pp.scopes)
-		pp.scopesMu.Unlock()
+		n, _ := vpTableLen(prov, "scopesMu", "scopes")
 		k := 0
 		if parent != nil {
-			parent.childrenMu.Lock()
-			k = len(parent.children)
-			parent.childrenMu.Unlock()
+			k, _ = vpTableLen(parent, "childrenMu", "children")
 		}
 		return n, k
 	}
